@@ -252,8 +252,173 @@ class DepthStream(Stream):
         return [obs["out"], case["mode"], f"limit{case['limit']}", "frames>=1000" if obs["maxFrames"] >= 1000 else "frames<1000"]
 
 
+# ---- stream 2: parser loops against the model -----------------------------------------------------------
+STRAY = ["endif", "endunless", "endcase", "endfor", "endcapture", "endcomment", "enddoc", "else", "elsif x", "when 1",
+         "foo", "foo bar", "endfoo", "break", "break now", "assign", "assign v = 2", "liquid", "case", "if", "for", "capture",
+         "unless", "comment", "doc", "doc x", "else extra", "endif extra"]
+
+
+class PGen:
+    """Liquid source over the tags of Model/ParseLoops.lean, as a list of pieces (markup or text)."""
+
+    def __init__(self, rng):
+        self.r = rng
+
+    def text(self):
+        return self.r.choice(["a", " b ", "\n", "x y", "1"])
+
+    def block(self, depth, maxd):
+        out = []
+        for _ in range(self.r.choice([0, 1, 1, 2, 2, 3])):
+            out += self.item(depth, maxd)
+        return out
+
+    def item(self, depth, maxd):
+        r = self.r
+        k = r.below(100)
+        if depth >= maxd or k < 24:
+            return [r.choice([self.text(), "{{ x }}", "{{ x | upcase }}", "{% assign v = 1 %}", "{% break %}", "{% raw %}{{ r }}{% endraw %}",
+                              "{% comment %}c {% if %} c{% endcomment %}", "{% doc %}d{% enddoc %}", "{%- assign w = x -%}"])]
+        if k < 40:
+            out = ["{% if a %}"] + self.block(depth + 1, maxd)
+            for _ in range(r.choice([0, 0, 1, 2])):
+                out += ["{% elsif b == 1 %}"] + self.block(depth + 1, maxd)
+            if r.chance(45):
+                out += [r.choice(["{% else %}", "{% else %}", "{% else junk %}"])] + self.block(depth + 1, maxd)
+            if r.chance(8):
+                out += [r.choice(["{% else %}", "{% elsif c %}"])] + self.block(depth + 1, maxd)  # extraneous, ignored
+            return out + ["{% endif %}"]
+        if k < 50:
+            out = ["{% unless a %}"] + self.block(depth + 1, maxd)
+            if r.chance(30):
+                out += ["{% elsif b %}"] + self.block(depth + 1, maxd)
+            if r.chance(40):
+                out += ["{% else %}"] + self.block(depth + 1, maxd)
+            return out + ["{% endunless %}"]
+        if k < 64:
+            out = ["{% case a %}"] + ([self.text()] if r.chance(40) else [])
+            for _ in range(r.choice([0, 1, 2, 3])):
+                if r.chance(75):
+                    out += [r.choice(["{% when 1 %}", "{% when 1, 2 %}", "{% when 'a' or 'b' %}"])] + self.block(depth + 1, maxd)
+                else:
+                    out += ["{% else %}"] + self.block(depth + 1, maxd)
+            return out + ["{% endcase %}"]
+        if k < 76:
+            out = ["{% for i in (1..3) %}"] + self.block(depth + 1, maxd)
+            if r.chance(35):
+                out += ["{% else %}"] + self.block(depth + 1, maxd)
+            return out + ["{% endfor %}"]
+        if k < 84:
+            return ["{% capture v %}"] + self.block(depth + 1, maxd) + ["{% endcapture %}"]
+        if k < 94:
+            lines = []
+            for _ in range(r.choice([0, 1, 2, 3])):
+                lines += r.choice([["assign v = 1"], ["break"], ["if a", "assign v = 2", "endif"], ["for i in (1..2)", "break", "endfor"],
+                                   ["case a", "when 1", "assign v = 3", "endcase"], ["if a"], ["endif"], ["liquid assign q = 1"],
+                                   ["unless a", "else", "assign v = 4", "endunless"], ["foo"], ["capture v", "endcapture"], ["liquid if a"]])
+            return ["{% liquid " + "\n ".join(lines) + " %}"]
+        return ["{% " + r.choice(STRAY) + " %}"]
+
+
+def damage(rng, pieces):
+    pieces = list(pieces)
+    for _ in range(rng.choice([1, 1, 2, 3])):
+        if not pieces:
+            pieces.append("{% " + rng.choice(STRAY) + " %}")
+            continue
+        i = rng.below(len(pieces))
+        k = rng.below(7)
+        pc = pieces[i]
+        if k == 0:
+            del pieces[i]
+        elif k == 1:
+            pieces.insert(i, pc)
+        elif k == 2:
+            pieces.insert(i, "{% " + rng.choice(STRAY) + " %}")
+        elif k == 3 and pc.startswith("{%"):
+            import re
+
+            m = re.match(r"(\{%-?\s*\w+)", pc)
+            pieces[i] = (m.group(1) + " %}") if m else pc  # the tag without its expression
+        elif k == 4:
+            pieces = pieces[: i + 1]  # unterminated: everything after is gone
+        elif k == 5:
+            j = rng.below(len(pieces))
+            pieces[i], pieces[j] = pieces[j], pieces[i]
+        else:
+            pieces.insert(i, rng.choice(["{% if a %}", "{% case a %}", "{% for i in a %}", "{% unless a %}", "{% capture c %}", "{% comment %}", "{% case %}"]))
+    return pieces
+
+
+class ParseStream(Stream):
+    """Structured and damaged sources over the modelled tags: the real lexer's tokens go to the model, which must
+    reproduce the outcome class, the number of tokens consumed (`stream.pos`) and the skeleton of the tree."""
+
+    name = "parse"
+    parallel = True
+
+    def cases(self, ctx):
+        rng = ctx.rng_for("parse")
+        out = []
+        for i in range(ctx.scale(700, 9000)):
+            g = PGen(rng)
+            k = rng.below(100)
+            if k < 8:
+                d = rng.choice([5, 28, 29, 30, 31, 32, 40])
+                opener, closer = rng.choice([("{% if a %}", "{% endif %}"), ("{% for i in a %}", "{% endfor %}"), ("{% case a %}{% when 1 %}", "{% endcase %}"),
+                                             ("{% capture c %}", "{% endcapture %}"), ("{% liquid if a %}", "")])
+                pieces = [opener] * d + g.block(1, 2) + [closer] * (d if rng.chance(70) else rng.below(d + 1)) + g.block(0, 1)
+            else:
+                pieces = g.block(0, rng.choice([1, 2, 3, 4]))
+            if rng.chance(55):
+                pieces = damage(rng, pieces)
+            out.append({"source": "".join(pieces), "mode": rng.choice(["strict", "lax", "lax", "warn"]), "block_limit": rng.choice([30, 30, 30, 3, 5])})
+        return out
+
+    def impl(self, case):
+        from ..impl.c09_run import run_job
+
+        r = run_job({"kind": "parse", "model": True, "source": case["source"], "mode": case["mode"], "block_limit": case["block_limit"], "cpu_limit": 20.0}, "std", 120.0)
+        return {k: r.get(k) for k in ("out", "liquid", "tokens", "ntokens", "pos", "skeleton", "cpu_s")}
+
+    def line_obs(self, case, obs):
+        if obs.get("tokens") is None:
+            return None
+        return ["parse", case["mode"] != "strict", case["block_limit"], obs["tokens"]]
+
+    def compare_view(self, case, obs):
+        return {"out": obs["out"], "pos": obs["pos"], "skeleton": obs["skeleton"]}
+
+    def canon_model(self, case, m):
+        if not isinstance(m, dict) or "pos" not in m:
+            return m
+        self._last = m
+        return {"out": m["out"], "pos": m["pos"], "skeleton": m["skeleton"]}
+
+    def oracle(self, case, obs):
+        o = obs["out"]
+        if o in ("timeout", "crash", "RecursionError"):
+            return (f"parse|{o}", f"parsing did not finish normally: {o}")
+        if o != "ok" and not o.startswith("lexer:") and not obs.get("liquid"):
+            return (f"parse|non-liquid|{o}", f"{o} escaped the parser")
+        if obs.get("cpu_s") is not None and obs["cpu_s"] > PARSE_CPU_S:
+            return ("parse|slow", f"{obs['cpu_s']} s CPU for {len(case['source'])} characters")
+        return None
+
+    def nontrivial(self, case, obs):
+        return obs.get("ntokens") is not None and obs["ntokens"] >= 4 and (obs["out"] != "ok" or "illegal" in (obs.get("skeleton") or []) or (obs.get("skeleton") or []).count("(") >= 2)
+
+    def tags(self, case, obs):
+        sk = obs.get("skeleton") or []
+        return [obs["out"], case["mode"], "illegal-node" if "illegal" in sk else "clean", f"limit{case['block_limit']}",
+                "tokens>=20" if (obs.get("ntokens") or 0) >= 20 else "tokens<20"]
+
+
+PARSE_CPU_S = 5.0
+
+
 def streams(ctx):
-    return [DepthStream()]
+    return [DepthStream(), ParseStream()]
 
 
 RULE = "wip"
